@@ -44,6 +44,10 @@ FILES = {
     "strings.lbl": b"a = \"it's\"\nb = 'say \"hi\"'\nc = NULL\nd = \"END\"\ne = \"multi\n  line\"\nEND\n",
     "garbage.lbl": b"= = ( }\n",
     "leap.lbl": b"t = 23:59:60\nEND\n",
+    # names that are also shell patterns matching a neighbour with another verdict
+    "frame[2].lbl": b"a = 1\nEND\n", "frame2.lbl": b"= = ( }\n",
+    "star*.lbl": b"= = (\n", "starx.lbl": b"a = 1\nEND\n",
+    "q?.lbl": b"s = {1.5}\nEND\n", "qa.lbl": b"t = 12:00+01\nEND\n",
     # loads everywhere, but the ODL-family encoders refuse the units (with TypeError, not ValueError)
     "oddunits.lbl": b"r = 1.5 <W*m**-2*sr**-1>\np = 1 <%>\nEND\n",
     # loads everywhere, values some encoders refuse
